@@ -215,3 +215,24 @@ Proof.
     apply String.eqb_eq in E. subst. discriminate.
   - cbn zeta. split; [reflexivity|]. eexists. split; vm_compute; reflexivity.
 Qed.
+
+(* hash_separates_dataset_length: a two row frame against the three row frame, with the example row
+   hash and a Python-like repr of the names ("[" first): the hypothesis holds, the bytes differ *)
+Definition frame_range2 : frame := frame_idx (IRange 0 2 1) 2.
+Definition ex_repr_names (l : list string) : string := "[" ++ String.concat ", " l ++ "]".
+Example dataset_length_example :
+  (List.length (f_rows frame_range2) < List.length (f_rows frame_range3)) /\
+  (forall x y, ex_rowhash (nth (List.length (f_rows frame_range2)) (f_rows frame_range3) []) ++ x
+               <> ex_repr_names (f_columns frame_range2) ++ y).
+Proof. split; [vm_compute; apply le_n|]. intros x y E. vm_compute in E. discriminate. Qed.
+
+(* generic_code_roundtrip: a json engine satisfying the one equation for ex_model's code dictionary,
+   all guards true on ex_model (a full model), and the round trip computed *)
+Definition ex_code_dict : pyv := generic_code_dict strG "1.2.0" (generic_convert strG ex_model).
+Example generic_code_roundtrip_example :
+  let dumps := fun _ : pyv => "code" in let loads := fun _ : string => Some (normalise ex_code_dict) in
+  loads (dumps ex_code_dict) = Some (normalise ex_code_dict) /\
+  m_value_type strG ex_model = "PREDICTION" /\
+  generic_roundtrip strG dumps loads "1.2.0" ex_model = Some (strip strG ex_model) /\
+  model_eq strG (strip strG ex_model) ex_model = true.
+Proof. cbn zeta. repeat split; vm_compute; reflexivity. Qed.
